@@ -124,7 +124,7 @@ def run(chk):
     for c in ch:
         insts = [c]
         if "X_Y" in c:
-            insts = [c.replace("X_Y", v) for v in ("2_17", "14_0", "1_2", "10_9", "11_3")]
+            insts = [c.replace("X_Y", v) for v in ("2_17", "14_0", "1_2", "10_9", "11_3", "2_100", "100_0", "0_0", "12_345")]
         for t in insts:
             chk.instance("R18.2")
             try:
@@ -180,12 +180,12 @@ def run(chk):
     members = {m.f["value"]: m for m in dom.Arch.members}
     fams = []
     for arch in members:
-        for (M, m) in ((2, 17), (2, 5), (2, 34)):
+        for (M, m) in ((2, 17), (2, 5), (2, 34), (2, 100), (3, 0)):
             fams.append(("Manylinux", (M, m), arch))
         for (M, m) in ((1, 1), (1, 2)):
             fams.append(("Musllinux", (M, m), arch))
     for arch in ("x86_64", "aarch64"):
-        for (M, m) in ((10, 9), (11, 0), (14, 2), (15, 10)):
+        for (M, m) in ((10, 9), (11, 0), (14, 2), (15, 10), (100, 0), (26, 123)):
             fams.append(("Macos", (M, m), arch))
     for arch in ("x86", "x86_64", "aarch64"):
         fams.append(("Windows", (), arch))
